@@ -23,6 +23,7 @@ type replica struct {
 	dir     string // "" = memory only
 	raw     dbApi.NodeDB
 	db      *spyDB
+	off     bool // accepted an operation the other replica rejected: its state no longer follows the model
 }
 
 func (r *replica) open() error {
@@ -136,6 +137,19 @@ func (m *machine) fail(sig, format string, args ...any) {
 	ev.Violation(m.t, sig, "%s; backends=%s trace=%q", fmt.Sprintf(format, args...), m.backends(), m.trace)
 }
 
+// diverge ends the history: the replicas that accepted the operation no longer follow the model (the operation is
+// not applied to it); the others are still checked against it.
+func (m *machine) diverge(what string, accepted []bool) {
+	m.rec.Label("diverged:" + what)
+	m.log("  replicas diverged on %s, history ends", what)
+	m.dead = true
+	for i, a := range accepted {
+		if a {
+			m.reps[i].off = true
+		}
+	}
+}
+
 func (m *machine) nextVersion() uint64 {
 	if m.lastFinal == nil {
 		return m.startV
@@ -172,6 +186,41 @@ func lcp(keys []string) []byte {
 	return p
 }
 
+// value draws a value for a tree of the given root type. While finding SigCross is excluded, IO values always
+// start with 0x10 and state values never do, so the two root types never hold an identical leaf.
+func value(t *rapid.T, typ node.RootType) []byte {
+	v := kv.GenValue(t)
+	if !ev.Excluded(SigCross) {
+		return v
+	}
+	if typ == node.RootTypeIO {
+		return append([]byte{0x10}, v...)
+	}
+	if len(v) > 0 && v[0] == 0x10 {
+		v = append([]byte{0x11}, v[1:]...)
+	}
+	return v
+}
+
+// crossLeaf reports whether some IO candidate of the history holds a key/value pair that some state candidate
+// holds too (precondition of finding SigCross).
+func (m *machine) crossLeaf() bool {
+	for _, a := range m.versions {
+		for _, io := range a.ofType(node.RootTypeIO) {
+			for _, b := range m.versions {
+				for _, st := range b.ofType(node.RootTypeState) {
+					for k, v := range io.Model {
+						if w, ok := st.Model[k]; ok && bytes.Equal(v, w) {
+							return true
+						}
+					}
+				}
+			}
+		}
+	}
+	return false
+}
+
 // genBatch draws a batch against the parent contents pm. sibs are the candidates already committed for the
 // same version and type.
 func (m *machine) genBatch(t *rapid.T, typ node.RootType, pm kv.Model, sibs []*cand) ([]op, []string) {
@@ -194,11 +243,11 @@ func (m *machine) genBatch(t *rapid.T, typ node.RootType, pm kv.Model, sibs []*c
 		}
 		return []byte(ks[rapid.IntRange(0, len(ks)-1).Draw(t, "liveKey")])
 	}
-	if len(pm) == 0 && len(sibs) == 0 && rapid.IntRange(0, 3).Draw(t, "populate") > 0 {
+	if len(pm) == 0 && rapid.IntRange(0, 9).Draw(t, "populate") > 0 {
 		// populate an empty tree with several keys
 		n := rapid.IntRange(2, len(m.uni)).Draw(t, "npop")
 		for i := 0; i < n && i < 12; i++ {
-			add(op{Ins: true, Key: key(), Val: kv.GenValue(t)})
+			add(op{Ins: true, Key: key(), Val: value(t, typ)})
 		}
 		shapes = append(shapes, "populate")
 	}
@@ -214,20 +263,20 @@ func (m *machine) genBatch(t *rapid.T, typ node.RootType, pm kv.Model, sibs []*c
 			continue
 		}
 		switch mode {
-		case 0, 1, 2, 15: // plain random inserts / removes
+		case 0, 1, 15: // plain random inserts / removes
 			n := rapid.IntRange(1, 4).Draw(t, "nplain")
 			for i := 0; i < n; i++ {
 				if rapid.IntRange(0, 2).Draw(t, "isRem") == 0 {
 					add(op{Key: key()})
 				} else {
-					add(op{Ins: true, Key: key(), Val: kv.GenValue(t)})
+					add(op{Ins: true, Key: key(), Val: value(t, typ)})
 				}
 			}
 			shapes = append(shapes, "plain")
 		case 3: // real change of a live key
 			if k := liveKey(); k != nil {
 				if rapid.Bool().Draw(t, "overwrite") {
-					add(op{Ins: true, Key: k, Val: kv.GenValue(t)})
+					add(op{Ins: true, Key: k, Val: value(t, typ)})
 				} else {
 					add(op{Key: k})
 				}
@@ -246,10 +295,10 @@ func (m *machine) genBatch(t *rapid.T, typ node.RootType, pm kv.Model, sibs []*c
 						if so[i].Ins {
 							so[i] = op{Key: so[i].Key}
 						} else {
-							so[i] = op{Ins: true, Key: so[i].Key, Val: kv.GenValue(t)}
+							so[i] = op{Ins: true, Key: so[i].Key, Val: value(t, typ)}
 						}
 					default:
-						so[i] = op{Ins: true, Key: so[i].Key, Val: kv.GenValue(t)}
+						so[i] = op{Ins: true, Key: so[i].Key, Val: value(t, typ)}
 					}
 					shapes = append(shapes, "sibling-mutated")
 				} else {
@@ -264,7 +313,7 @@ func (m *machine) genBatch(t *rapid.T, typ node.RootType, pm kv.Model, sibs []*c
 		case 7: // insert-then-remove of a key that is absent
 			k := key()
 			if _, ok := live[string(k)]; !ok {
-				add(op{Ins: true, Key: k, Val: kv.GenValue(t)})
+				add(op{Ins: true, Key: k, Val: value(t, typ)})
 				add(op{Key: k})
 				shapes = append(shapes, "insert-then-remove")
 			}
@@ -284,7 +333,7 @@ func (m *machine) genBatch(t *rapid.T, typ node.RootType, pm kv.Model, sibs []*c
 							inUni = true
 						}
 					}
-					add(op{Ins: true, Key: k, Val: kv.GenValue(t)})
+					add(op{Ins: true, Key: k, Val: value(t, typ)})
 					if !inUni || rapid.Bool().Draw(t, "shortRemove") {
 						add(op{Key: k})
 						shapes = append(shapes, "short-key-insert-remove")
@@ -293,8 +342,11 @@ func (m *machine) genBatch(t *rapid.T, typ node.RootType, pm kv.Model, sibs []*c
 					}
 				}
 			}
-		case 10, 11: // resurrection of a key removed in an earlier finalized version
+		case 2, 10, 11: // resurrection of a key removed in an earlier finalized version
 			var gs []string
+			if typ != node.RootTypeState {
+				break
+			}
 			for k := range m.graveyard {
 				if _, ok := live[k]; !ok {
 					gs = append(gs, k)
@@ -305,13 +357,13 @@ func (m *machine) genBatch(t *rapid.T, typ node.RootType, pm kv.Model, sibs []*c
 				k := gs[rapid.IntRange(0, len(gs)-1).Draw(t, "grave")]
 				v := m.graveyard[k]
 				if rapid.IntRange(0, 3).Draw(t, "graveNewVal") == 0 {
-					v = kv.GenValue(t)
+					v = value(t, typ)
 				}
 				add(op{Ins: true, Key: []byte(k), Val: v})
 				shapes = append(shapes, "resurrect")
 			}
 		case 12: // clear everything
-			if rapid.IntRange(0, 2).Draw(t, "clear") == 0 {
+			if rapid.IntRange(0, 5).Draw(t, "clear") == 0 {
 				for _, k := range live.SortedKeys() {
 					add(op{Key: []byte(k)})
 				}
@@ -454,9 +506,11 @@ func (m *machine) commit(t *rapid.T, typ node.RootType) {
 		return
 	}
 	if nok != len(m.reps) {
-		m.rec.Label("diverged:commit")
-		m.log("  replicas diverged, history ends")
-		m.dead = true
+		var acc []bool
+		for _, r := range rs {
+			acc = append(acc, r.err == nil)
+		}
+		m.diverge("commit", acc)
 		return
 	}
 	for i, r := range rs {
@@ -630,8 +684,11 @@ func (m *machine) finalize(t *rapid.T) {
 	}
 	m.log("finalize v%d %v", vr.V, names(fin))
 	nok := 0
+	var acc []bool
 	for _, r := range m.reps {
-		if err := r.db.Finalize(roots); err != nil {
+		err := r.db.Finalize(roots)
+		acc = append(acc, err == nil)
+		if err != nil {
 			m.rec.Label(fmt.Sprintf("not-accepted:finalize:%s:%s", r.backend, errClass(err)))
 			m.log("  %s: not accepted: %v", r.backend, err)
 		} else {
@@ -642,8 +699,7 @@ func (m *machine) finalize(t *rapid.T) {
 		return
 	}
 	if nok != len(m.reps) {
-		m.rec.Label("diverged:finalize")
-		m.dead = true
+		m.diverge("finalize", acc)
 		return
 	}
 	isFin := map[*cand]bool{}
@@ -748,8 +804,11 @@ func (m *machine) prune(t *rapid.T) {
 	}
 	m.log("prune v%d", e.V)
 	nok := 0
+	var acc []bool
 	for _, r := range m.reps {
-		if err := r.db.Prune(e.V); err != nil {
+		err := r.db.Prune(e.V)
+		acc = append(acc, err == nil)
+		if err != nil {
 			kind := ""
 			for _, c := range e.Cands {
 				if c.Final && c.Root.Hash.IsEmpty() {
@@ -766,8 +825,7 @@ func (m *machine) prune(t *rapid.T) {
 		return
 	}
 	if nok != len(m.reps) {
-		m.rec.Label("diverged:prune")
-		m.dead = true
+		m.diverge("prune", acc)
 		return
 	}
 	e.Pruned = true
@@ -778,8 +836,8 @@ func (m *machine) prune(t *rapid.T) {
 }
 
 func (m *machine) reopen(t *rapid.T) {
-	if m.dead {
-		return
+	if m.dead || m.reopens >= 2 {
+		return // (opening a database costs more than the rest of an average case)
 	}
 	any := false
 	for _, r := range m.reps {
@@ -814,7 +872,7 @@ func (m *machine) sigUnreadable(r *replica, rr readResult) string {
 		if m.sharedPre {
 			return SigShared
 		}
-		if m.crossPre {
+		if m.crossPre || m.crossLeaf() {
 			return SigCross
 		}
 	}
@@ -825,6 +883,9 @@ func (m *machine) check(_ *rapid.T) {
 	m.step++
 	pk := m.proofKeys()
 	for ri, r := range m.reps {
+		if r.off {
+			continue
+		}
 		ndb := r.db
 		for _, vr := range m.versions {
 			switch {
@@ -1054,7 +1115,9 @@ func runMachine(t *rapid.T, rec *ev.Recorder, backends []string, cur **machine) 
 			"commitIO":     m.commitIO,
 			"finalize":     m.finalize,
 			"finalize2":    m.finalize,
+			"finalize3":    m.finalize,
 			"prune":        m.prune,
+			"prune2":       m.prune,
 			"reopen":       m.reopen,
 			"":             m.check,
 		})
